@@ -4,8 +4,10 @@ import os
 
 from hypothesis import strategies as st
 
-CATS = ['app-misc', 'dev-libs', 'sys-apps', 'x11-wm', 'virtual']
-PKGS = ['foo', 'bar', 'libbaz', 'qux-ng', 'a']
+# (some names are character prefixes of others: foo / foo-bin, a / ab)
+CATS = ['app-misc', 'dev-libs', 'sys-apps', 'x11-wm', 'virtual', 'dev-lib',
+        'x11']
+PKGS = ['foo', 'bar', 'libbaz', 'qux-ng', 'a', 'foo-bin', 'ab', 'qux']
 FILE_NAMES = ['patch-1.patch', 'init.d', 'conf', 'README']
 MD_SUBDIRS = ['dtd', 'glsa', 'news', 'xml-schema', 'md5-cache',
               'install-qa-check.d']
